@@ -182,6 +182,29 @@ Proof.
   repeat split; auto.
 Qed.
 
+(** the scan variant is CG: a finite result of cg_solver is the maxiter-th iterate of the same
+    loop body (instances of [cg_solver_is_cg_iterate]; nothing assumed) *)
+Lemma Cdivo_some a c q : Cdivo a c = Some q -> q = Cdiv a c.
+Proof. unfold Cdivo. destruct (Qc_eqb (fst c) 0%Qc && Qc_eqb (snd c) 0%Qc); intros H; inversion H; reflexivity. Qed.
+Lemma Qc_divo_some a c q : Qc_divo a c = Some q -> q = (a / c)%Qc.
+Proof. unfold Qc_divo. destruct (Qc_eqb c 0%Qc); intros H; inversion H; reflexivity. Qed.
+
+Theorem c_cg_solver_is_cg_iterate n A b x0 maxiter x :
+  c_cg_solver n A b x0 maxiter = Some x ->
+  x = sx _ _ (iter_mat C C0 Cadd Cmul Csub Cconj Cdiv n (cmat n A) (fun v => v) maxiter (cvec n b) (cvec n x0)).
+Proof.
+  unfold c_cg_solver, cg_solver_mat, iter_mat. intros H.
+  apply (cg_solver_is_cg_iterate C (tup C n)) with (kdivo := Cdivo); auto. exact Cdivo_some.
+Qed.
+
+Theorem r_cg_solver_is_cg_iterate n A b x0 maxiter x :
+  r_cg_solver n A b x0 maxiter = Some x ->
+  x = sx _ _ (iter_mat Qc 0%Qc Qcplus Qcmult Qcminus qid Qcdiv n (rmat n A) (fun v => v) maxiter (rvec n b) (rvec n x0)).
+Proof.
+  unfold r_cg_solver, cg_solver_mat, iter_mat. intros H.
+  apply (cg_solver_is_cg_iterate Qc (tup Qc n)) with (kdivo := Qc_divo); auto. exact Qc_divo_some.
+Qed.
+
 (** ------------------------------------------------------------------ comparison with the
     implementation (values of the implementation are exact binary fractions, type Q) *)
 Definition close (eps a b : Q) : bool := Qle_bool (Qabs (a - b)) (eps * (1 + Qabs b)).
@@ -296,3 +319,19 @@ Definition r_scan_ok n A b x0 (exact : bool) (o : sobs) : bool :=
 Definition scase := (nat * list (list Q) * list Q * list Q * bool * list sobs)%type.
 Definition r_scan_case_ok (c : scase) : bool :=
   let '(n, A, b, x0, exact, obs) := c in forallb (r_scan_ok n A b x0 exact) obs.
+
+(** complex cg_solver (scan): same protocol; [eps] is the comparison tolerance (2^-30 for complex128,
+    2^-12 for complex64 data) *)
+Definition csobs := (nat * option (list (Q * Q)))%type.
+Definition c_scan_ok n A b x0 (exact : bool) (eps : Q) (o : csobs) : bool :=
+  let '(maxiter, x) := o in
+  match c_cg_solver n A b x0 maxiter, x with
+  | None, None => true
+  | Some m, Some i =>
+      all2 (fun a c => close eps (fst c) (this (fst a)) && close eps (snd c) (this (snd a))) (to_list n m) i
+  | None, Some _ => negb exact
+  | Some _, None => false
+  end.
+Definition cscase := (nat * list (list (Q * Q)) * list (Q * Q) * list (Q * Q) * bool * Q * list csobs)%type.
+Definition c_scan_case_ok (c : cscase) : bool :=
+  let '(n, A, b, x0, exact, eps, obs) := c in forallb (c_scan_ok n A b x0 exact eps) obs.
